@@ -150,6 +150,9 @@ class Machine:
         self._keep_running = False
         self._clock.stop()
 
+    def clear_stop(self) -> None:
+        self._keep_running = True
+
     def get_state(self) -> MachineState:
         return MachineState(self._reg, self._call_stack)
 
